@@ -22,6 +22,7 @@ use vharness::*;
 
 fn run_script(sc: &Value) -> (Vec<Vec<String>>, Value) {
     let cfg = net::Cfg::from_json(&sc["cfg"]);
+    let transport = cfg.transport.clone();
     let rt = tokio::runtime::Builder::new_current_thread().enable_all().build().expect("runtime");
     let id = sc["id"].clone();
     let steps = sc["steps"].as_array().cloned().unwrap_or_default();
@@ -50,7 +51,7 @@ fn run_script(sc: &Value) -> (Vec<Vec<String>>, Value) {
             polls += n.exec.polls.load(Ordering::Relaxed);
             conn_tasks += n.exec.conn_tasks.load(Ordering::SeqCst);
         }
-        (logs, json!({"connected": connected, "late_ms": net.max_late_ms, "polls": polls, "conn_tasks": conn_tasks, "notes": net.notes}))
+        (logs, json!({"connected": connected, "transport": transport, "late_ms": net.max_late_ms, "polls": polls, "conn_tasks": conn_tasks, "notes": net.notes}))
     });
     rt.shutdown_background();
     out
@@ -91,15 +92,19 @@ fn main() {
     res.sort_by_key(|r| r.0);
     let mut lines = Vec::new();
     let (mut nconn, mut nfail, mut late, mut hp, mut polls, mut ct) = (0, 0, 0u64, 0, 0u64, 0u64);
+    let mut per_tr: std::collections::BTreeMap<String, (u64, u64)> = Default::default();
     for (_, logs, info) in res.iter() {
         if info["harness_panic"].as_bool() == Some(true) {
             hp += 1;
             continue;
         }
+        let e = per_tr.entry(info["transport"].as_str().unwrap_or("tcp").to_string()).or_default();
         if info["connected"].as_bool() == Some(true) {
             nconn += 1;
+            e.0 += 1;
         } else {
             nfail += 1;
+            e.1 += 1;
         }
         late = late.max(info["late_ms"].as_u64().unwrap_or(0));
         polls += info["polls"].as_u64().unwrap_or(0);
@@ -112,6 +117,7 @@ fn main() {
     println!(
         "SUMMARY {}",
         json!({"scripts": scripts.len(), "networks_connected": nconn, "connect_failed": nfail, "harness_panics": hp,
-               "lines": lines.len(), "max_driver_lateness_ms": late, "task_polls": polls, "stream_tasks": ct})
+               "lines": lines.len(), "max_driver_lateness_ms": late,
+               "per_transport_connected_failed": per_tr.iter().map(|(k, v)| (k.clone(), json!([v.0, v.1]))).collect::<serde_json::Map<_, _>>(), "task_polls": polls, "stream_tasks": ct})
     );
 }
